@@ -181,3 +181,84 @@ def oracle_cart(grid, mask, em, rec):
                        for j in range(len(cands))):
                 return f"component {k} left out although it overlaps no component at least as large"
     return None
+
+
+# ---- cylindrical / radial grids ---------------------------------------------------------------
+def cyl_lit(grid):
+    (rlo, R), (zlo, zhi) = grid.axes_bounds
+    assert rlo == 0
+    return ("{| cg_nr := %s; cg_nz := %s; cg_R := %s; cg_zlo := %s; cg_zhi := %s; cg_per := %s |}"
+            % (vlib.zlit(grid.shape[0]), vlib.zlit(grid.shape[1]), vlib.qlit(R), vlib.qlit(zlo), vlib.qlit(zhi),
+               vlib.blit(bool(grid.periodic[1]))))
+
+
+def cyl_components(mask, periodic_z):
+    """Components of an (r, z) image; z periodic if requested.  Returns dicts with cells, lifted z (or None), on_axis."""
+    comps = torus_components(mask, [False, periodic_z])
+    for c in comps:
+        c["on_axis"] = any(cell[0] == 0 for cell in c["cells"])
+    return comps
+
+
+def oracle_cyl(grid, mask, em, cands, kept):
+    """C02 on cylindrical grids from the property text.  Returns a list of (failure class, description)."""
+    out = []
+    per = bool(grid.periodic[1])
+    (rlo, R), (zlo, zhi) = grid.axes_bounds
+    nr, nz = grid.shape
+    dr, dz = R / nr, (zhi - zlo) / nz
+    L = zhi - zlo
+    comps = [c for c in cyl_components(mask, per) if c["on_axis"]]
+    if not comps:
+        if len(em) != 0:
+            out.append(("count", f"image without a component on the symmetry axis yields {len(em)} droplet(s)"))
+        return out
+    vol_cell = lambda i: np.pi * (((i + 1) * dr) ** 2 - (i * dr) ** 2) * dz
+    if len(cands) != len(comps):
+        out.append(("count", f"{len(cands)} candidate droplet(s) for {len(comps)} component(s) touching the axis"))
+        return out
+    unused = list(range(len(cands)))
+    for comp in comps:
+        vol = sum(vol_cell(c[0]) for c in comp["cells"])
+        match_v = [k for k in unused if abs(cands[k][1] - vol) <= 1e-9 * vol]
+        if not match_v:
+            cls = "volume" if comp["lifted"] is not None else "winding volume"
+            out.append((cls, f"no droplet with the total cell volume {vol} of the component {sorted(comp['cells'])[:4]}..."))
+            continue
+        if comp["lifted"] is None:  # winding: position unspecified
+            unused.remove(match_v[0])
+            continue
+        w = np.array([vol_cell(c[0]) for c in comp["cells"]])
+        zl = np.array([c[1] for c in comp["lifted"]], float)
+        com = zlo + (float((w * zl).sum() / w.sum()) + 0.5) * dz
+        com_unweighted = zlo + (float(zl.mean()) + 0.5) * dz
+        okk = None
+        for k in match_v:
+            d = cands[k][0] - com
+            if per:
+                d = (d + L / 2) % L - L / 2
+            if abs(d) <= 1e-9 * (1 + L):
+                okk = k
+                break
+        if okk is None:
+            k = match_v[0]
+            d = cands[k][0] - com_unweighted
+            if per:
+                d = (d + L / 2) % L - L / 2
+            cls = "position is not the volume-weighted centre of mass" if abs(d) <= 1e-9 * (1 + L) else "position"
+            out.append((cls, f"component {sorted(comp['cells'])[:5]}...: z={cands[k][0]}, centre of mass {com} (unweighted mean {com_unweighted})"))
+            okk = k
+        unused.remove(okk)
+    # returned droplets never overlap (periodic metric); left out only if overlapped by one at least as large
+    def dist(a, b):
+        d = abs(a - b)
+        return min(d, L - d) if per else d
+    for a, b in itertools.combinations(kept, 2):
+        if dist(cands[a][0], cands[b][0]) < cands[a][2] + cands[b][2] - 1e-12:
+            out.append(("overlap", f"returned droplets at z={cands[a][0]} (r={cands[a][2]:.4g}) and z={cands[b][0]} (r={cands[b][2]:.4g}) overlap as equal-volume spheres"))
+            break
+    for k in range(len(cands)):
+        if k not in kept and not any(j != k and cands[j][2] >= cands[k][2] - 1e-15 and
+                                     dist(cands[k][0], cands[j][0]) < cands[k][2] + cands[j][2] + 1e-12 for j in range(len(cands))):
+            out.append(("left out", f"component at z={cands[k][0]} left out although it overlaps no component at least as large"))
+    return out
